@@ -94,7 +94,8 @@ def unrelated_xsi(xt, scope='default=tns'):
 LENS = sorted(set(len(k) for m in RESOLVABLE.values() for k in m if len(k) <= 12))
 
 
-@harness('C04', params=[(pn, L, sc) for pn in sorted(XPROTS) for L in LENS for sc in sorted(NSMAPS)],
+@harness('C04', tier_params={'quick': [(pn, L, sc) for pn in sorted(XPROTS) for L in LENS for sc in sorted(NSMAPS)],
+                             'thorough': [(pn, L, sc) for pn in sorted(XPROTS) for L in range(1, 15) for sc in sorted(NSMAPS)]},
          label=lambda p: '%s len=%d %s' % p,
          functions=['spyne.protocol.xml.XmlDocument.from_element', 'spyne.protocol.xml.XmlDocument.complex_from_element'],
          bounds={'xsi:type': 'every string of the lengths of the resolvable type names (<= 12 printable chars); three '
